@@ -49,7 +49,8 @@ impl OutputManager {
         }
 
         // Test write permissions by creating a temporary file
-        let test_file = self.output_dir.join(".write_test");
+        // the probe carries one of the reserved generated names, so it can never be a file of the user
+        let test_file = self.output_dir.join("generated_write_test");
         fs::write(&test_file, "test").map_err(|e| {
             OutputError::PermissionDenied(format!(
                 "Cannot write to output directory {}: {}",
